@@ -28,9 +28,12 @@ e) lanes: every query literal is encoded in the sign-flipped i64 lane (or, when 
    is_field_numeric_consistent cannot return true for the kind of values kept above i64::MAX (raw u64 lane).
 f) fractional numbers never reach the f64 lane on either side: the builder indexes a fractional value through floor AND ceil into the integer lane; the probe moves a fractional bound with ceil for > / >=
    and floor for < / <= (the other way round, or a truncation, rules out zones that hold matches).
+g) time values before 1970: (1) every zone that holds values of a time field gets a calendar entry - in TemporalIndexBuilder::build_for_zone_plans no sign test on the zone's min / max decides whether
+   add_zone_range is called for a payload field (the pruner takes its candidates from the calendar only, so a zone without an entry is ruled out for every predicate); (2) TemporalPruner compares the
+   zone temporal index (contains_ts, min_ts / max_ts) with the literal as given, not with the literal clamped to 0 (`at < -5` must not become `at < 0`); only calendar look-ups may use the clamped value.
 """
-FLOOR = 13
-REQUIRED = ["C08.a1", "C08.a2", "C08.a3", "C08.a4", "C08.b", "C08.c1", "C08.c2", "C08.c3", "C08.c4", "C08.c5", "C08.d", "C08.e", "C08.f"]
+FLOOR = 14
+REQUIRED = ["C08.a1", "C08.a2", "C08.a3", "C08.a4", "C08.b", "C08.c1", "C08.c2", "C08.c3", "C08.c4", "C08.c5", "C08.d", "C08.e", "C08.f", "C08.g"]
 
 
 def family(F, b):
@@ -549,3 +552,48 @@ def run(ctx):
                 bad.append(("fractional-bound-direction:%s" % var, "apply_surf_only rounds a fractional bound of %s with %s (needs %s): zones holding matches are ruled out" % (var, side[var], w), None))
         return bad
     ctx.run("C08.f", "K6 TABLE + K7", "ZoneSurfFilter::build_all_filtered / RangePruner::apply_surf_only", "fractional values and bounds are mapped into the integer lane with the sound rounding", f_)
+
+    def g_(inst):
+        bad = []
+        bb_ = [k for k in F.find(r"^engine::core::time::temporal_builder::TemporalIndexBuilder.*::build_for_zone_plans(::\{closure#0\})?$")]
+        b = None
+        for k in bb_:
+            B = F.fn_exact(k)
+            if B.find_calls(r"TemporalCalendarIndex::add_zone_range$"):
+                b = B
+        if b is None:
+            raise AnchorMissing("build_for_zone_plans with add_zone_range calls")
+        for c_ in b.find_calls(r"TemporalCalendarIndex::add_zone_range$"):
+            if "timestamp" in str_consts(b, c_.args[0], depth=6):
+                continue   # core timestamp: unsigned clock values
+
+            def acc(op, A, B_, truth):
+                # a sign test: something compared with the constant 0
+                za = any(l[0] == "const" and re.match(r"^-?0_", str(l[1])) for l in A)
+                zb = any(l[0] == "const" and re.match(r"^-?0_", str(l[1])) for l in B_)
+                return (za or zb) and op in ("Ge", "Gt", "Lt", "Le")
+            g = cmp_guard(b, c_.bb, acc)
+            inst.sites.append("add_zone_range @ %s: behind a sign test=%s" % (sp(b, c_.bb), bool(g)))
+            if g:
+                bad.append(("calendar-entry-behind-sign-test", "build_for_zone_plans registers a zone in a payload field's calendar only if a sign test on its values passes (%s): a zone holding a pre-1970 value has no entry and every time predicate rules it out" % sp(b, c_.bb), None))
+        p = F.fn("TemporalPruner::apply_temporal_only")
+        clamps = [c_ for c_ in p.find_calls(r"Ord::max$|cmp::max$|i64::max$")]
+        cl_locals = set()
+        for c_ in clamps:
+            cl_locals |= {l for l, _ in p.flow_forward(c_.dest)} | set(c_.dest)
+        for c_ in p.find_calls(r"ZoneTemporalIndex::contains_ts$"):
+            dep = wide_all(p, c_.args[1], partial=False, depth=8)
+            inst.sites.append("contains_ts @ %s: literal clamped=%s" % (sp(p, c_.bb), bool(dep & cl_locals)))
+            if dep & cl_locals:
+                bad.append(("zone-index-compared-with-clamped-literal", "apply_temporal_only checks a zone's temporal index against the literal clamped to 0 (%s): `at = -10` / `at < -5` are evaluated as 0" % sp(p, c_.bb), None))
+        for i in sorted(p.live_blocks()):
+            for st in p.blocks[i]["s"]:
+                v = st.get("v")
+                if v and v.get("r") == "bin" and v.get("op") in ("Gt", "Ge", "Lt", "Le"):
+                    fa, fb = fmt_leaves(p.origins(v["a"])), fmt_leaves(p.origins(v["b"]))
+                    if re.search(r"\.(min_ts|max_ts)", fa + fb):
+                        dep = wide_all(p, v["a"], partial=False, depth=8) | wide_all(p, v["b"], partial=False, depth=8)
+                        if dep & cl_locals:
+                            bad.append(("zone-range-compared-with-clamped-literal", "apply_temporal_only compares a zone's min_ts / max_ts with the literal clamped to 0 (%s)" % sp(p, i), None))
+        return bad
+    ctx.run("C08.g", "K8 GUARD + K7", "TemporalIndexBuilder::build_for_zone_plans / TemporalPruner::apply_temporal_only", "a value before 1970 neither hides its zone nor changes the predicate", g_)
